@@ -80,7 +80,7 @@ fn any_widths() -> (Option<usize>, Option<usize>) {
 // @bound one 64-byte root page with arbitrary bytes after a type byte in {LEAF, 0x00, 0xFF}; fixed/variable key and value widths arbitrary among {None, Some}; expected checksum arbitrary; profile without debug assertions
 // @stubs PageResolver::get_page -> page from the harness table; xxh3_checksum -> per-page symbolic constant; alloc::fmt::format -> empty; crate::panicking -> false
 #[kani::proof]
-#[kani::unwind(8)]
+#[kani::unwind(4)]
 #[kani::stub(PageResolver::get_page, stub_get_page)]
 #[kani::stub(crate::tree_store::page_store::xxh3_checksum, stub_checksum)]
 #[kani::stub(alloc::fmt::format, no_format)]
@@ -130,7 +130,7 @@ fn c12_verify_single_page_tree() {
 // @bound depth 2, one separator (2 bytes, variable width keys), two 64-byte children with arbitrary bytes (not branches), arbitrary stored checksums; profile without debug assertions
 // @stubs as c12_verify_single_page_tree
 #[kani::proof]
-#[kani::unwind(8)]
+#[kani::unwind(4)]
 #[kani::stub(PageResolver::get_page, stub_get_page)]
 #[kani::stub(crate::tree_store::page_store::xxh3_checksum, stub_checksum)]
 #[kani::stub(alloc::fmt::format, no_format)]
